@@ -68,10 +68,13 @@ def boxcar_filter(time_series, lb=0, ub=0.5, n_iterations=2):
 
             # Extract the low pass signal by excising the central
             # len(time_series) points:
+            dc = np.mean(time_series[i])
             time_series[i] = conv_s[conv_s.shape[-1] // 2 -
                                     int(np.floor(n / 2.)):
                                     conv_s.shape[-1] // 2 +
                                     int(np.ceil(n / 2.))]
+            # Keep the original DC component (the padding shifts it):
+            time_series[i] = time_series[i] - np.mean(time_series[i]) + dc
 
         # Now, if there is a high-pass, do the same, but in the end subtract
         # out the low-passed signal:
